@@ -37,7 +37,7 @@ fn main() {
         // one hyperedge label, and one node label: complete universes of 3 nodes x 2 unary hyperedges
         vec![Spec { n_min: 3, e_min: 2, lx: 1, ..Spec::open(3, 2, 1, 2, 2, 1, 1) }, Spec { n_min: 3, e_min: 2, lw: 1, ..Spec::open(3, 2, 1, 2, 2, 1, 1) }]
     } else {
-        vec![Spec { n_min: 3, e_min: 2, ..Spec::open(3, 2, 1, 2, 2, 1, 1) }]
+        vec![Spec { n_min: 3, e_min: 2, ..Spec::open(3, 2, 1, 2, 2, 1, 1) }, Spec { n_min: 3, e_min: 2, ..Spec::open(3, 2, 2, 1, 1, 1, 1) }]
     };
     for spec3 in specs3 {
         let u3 = spec3.universe();
